@@ -266,7 +266,13 @@ M("c11-result-not-sorted", ["C11"],
 M("c11-arch-filter-dropped-recursive", ["C11"],
   (CI, 'result.extend(variant.get_variants(arch=arch, types=', 'result.extend(variant.get_variants(types='))
 M("c11-uid-scan-removed", ["C11"],
-  (CI, '            for i in self.variants:\n                var = self.variants[i]\n                if var.uid == name:\n                    return var\n            return self.variants[head][tail]', '            return self.variants[head][tail]'))
+  (CI, '            for i in self.variants:\n                var = self.variants[i]\n                if var.uid == name:\n                    return var\n            # ... or for a descendant', '            # ... or for a descendant'))
+M("c11-dashed-prefix-descent-removed", ["C11"],
+  (CI, '                if "-" in var.uid and name.startswith(var.uid + "-"):', '                if False:'))
+M("c04-timestamp-through-float-again", ["C04"],
+  (TI, '    try:\n        return int(value)\n    except ValueError:\n        return int(float(value))', '    return int(float(value))'))
+M("c04-platform-suffix-always-stripped", ["C04"],
+  (TI, ' \\\n                    and platform not in self._metadata.tree.platforms:', ':'))
 M("c11-parent-not-restored", ["C11"],
   (CI, '            # a refused variant must not stay re-parented\n            variant.parent = old_parent\n', '            # a refused variant must not stay re-parented\n'))
 M("c11-parent-arch-truthiness", ["C11"],
